@@ -154,6 +154,10 @@ def make_trace(tid, rng, nops=30, **opt):
         cs, n = rng.choice([4096, 63 * 512, 1024, 2048]), rng.randrange(200, 700)   # small clusters: the BAT itself spans several clusters
     elif opt.get("many"):  # a BAT of several thousand entries
         cs, n = rng.choice([4096, 1024, 2048]), rng.choice([rng.randrange(1100, 2500), rng.randrange(4200, 9000), rng.randrange(16500, 20000)])
+    runs = opt.get("many") == "runs"
+    if runs:  # long runs of absent / present clusters of 1 MiB (v2: the trace cells of v1 images are sectors - too many of them)
+        ver, cs, n = 2, 1 << 20, rng.randrange(48, 72)
+        plan = diskprop.run_plan(rng, n, ["U", "D", "Dr"])
     parent = rng.random() < 0.3
     tail = rng.choice([0, 0, 512, cs // 1024 * 512, cs - 512])
     size_b = n * cs - tail
@@ -167,6 +171,9 @@ def make_trace(tid, rng, nops=30, **opt):
         pos = list(range(hdr_clusters, hdr_clusters + npos))
         rng.shuffle(pos)
         bat = [0 if rng.random() < 0.35 else pos.pop() for _ in range(n)]
+        if runs:
+            pp, npos = diskprop.run_positions(plan, first=hdr_clusters)
+            bat = [0 if k == "U" else pp[i] for i, k in enumerate(plan)]
         img = {"kind": "hds", "ver": 2, "n": n, "cb": 1, "bat": {i: bat[i] for i in range(n)}, "size": n, "parent": parent}
         vf, info = enc_hds.build(img, cluster_size=cs, P=hdr_clusters + npos, size_bytes=size_b, hdr_kw=dontcare, file_id=fid)
         timg = {"kind": "hds", "ver": 2, "n": n, "cb": 1, "bat": bat, "size": n, "parent": parent}
@@ -191,7 +198,10 @@ def make_trace(tid, rng, nops=30, **opt):
     s = b.open()
     fresh = b.open()
     rec = record.Recorder(s, size_b, probe=fresh.readoffset, align=opt.get("align"))
-    record.random_ops(rec, rng, size_b, nops, unit=cs, big=min(3 * cs + 4096, 4 << 20))
+    if runs:
+        diskprop.whole_disk_ops(rec, rng, size_b, cs)
+        nops = 6
+    record.random_ops(rec, rng, size_b, nops, unit=cs, big=(size_b + 4096) if runs else min(3 * cs + 4096, 4 << 20))
     return {"tid": tid, "fmt": "hds", "img": timg, "sizeB": size_b, "sector": 512, "geo": b.geo(), "events": rec.events}
 
 
